@@ -374,3 +374,27 @@ class WriteAhead:
                 state, val = self.record_state(m, h)
                 if state != 'Pending':
                     raise Violation('pay-before-pending-record', {'record': state}, 'lifecycle.pay', 'write-ahead')
+
+
+class Coverage:
+    """Vacuity guard: records which interesting situations were reached at least once in a configuration."""
+    def __init__(self, expect):
+        self.expect = list(expect)
+        self.seen = set()
+    def after_step(self, m, sc, label, new):
+        for ev in new:
+            if ev[0] == 'rpc_call' and ev[2] == 'pay':
+                self.seen.add('pay')
+            elif ev[0] == 'htlc_response':
+                self.seen.add('response:' + ev[2].split('(')[0])
+                self.seen.add('response:' + ev[2])
+            elif ev[0] == 'timer_fired':
+                self.seen.add('timer')
+            elif ev[0] == 'CRASH':
+                self.seen.add('crash')
+            elif ev[0] == 'rpc_fault' or ev[0] == 'ds_write_fault':
+                self.seen.add('fault')
+            elif ev[0] == 'ds_write':
+                self.seen.add('ds_write')
+    def missing(self):
+        return [e for e in self.expect if e not in self.seen]
